@@ -6,7 +6,7 @@ import os
 
 from ..astutil import short, u
 from ..core import Report
-from ..engines.truthy import Truthy
+from ..engines.truthy import DATA_FUNCS, DATA_PARAMS, Truthy
 from ..frontend import Repo
 from ..model import model_of
 
@@ -19,14 +19,15 @@ def check(repo: Repo, rep: Report) -> None:
     rep.explanation = (
         "E4 opaque-data truthiness: flow-insensitive taint per closure tree with a container depth. Sources: the value "
         "parameter of every on_next handler / _on_next_core / on_next method; values read back from containers, cells "
-        "and fields into which elements were stored. Sinks: an element (depth 0) as the operand of if/while/assert/"
+        "and fields into which elements were stored; results of the user's data-producing callbacks (key_mapper, mapper, "
+        "accumulator, ... -- with the identity default a key *is* the element, a mapped value *becomes* one) and the "
+        "opaque data parameters seed / default_value / initial_value. Sinks: an element (depth 0) as the operand of if/while/assert/"
         "ternary/comprehension-if/not/and/or/bool()/filter(None, ...) or compared with None. Containers of elements may "
         "be tested for emptiness. Presence must be decided by flags / sentinels / lengths, never by the element's value. "
         "Thorough tier adds a typed detector: one in-process mypy build, flagging truth/None tests whose operand type is "
         "a bare element TypeVar or a union containing one.")
     rep.assumptions += ["flow-insensitive: a variable is an element if any assignment gives it one",
-                        "results of user callbacks that are forwarded as elements are not sources (mapper results are "
-                        "handed to on_next untested in every operator today; a test on them is caught by the typed detector)"]
+                        "predicates / comparers / conditions are not data sources: their results are truth values"]
     rep.rule("E4-element-truthiness", "no stream element is truth-tested or compared with None", floor=200)
     rep.rule("E4-sources", "every on_next handler / _on_next_core value parameter is a taint source", floor=60)
     m = model_of(repo)
@@ -37,7 +38,7 @@ def check(repo: Repo, rep: Report) -> None:
         for root in mod.root.children:
             if not (root.is_func or root.is_class):
                 continue
-            t = Truthy(repo, m, root)
+            t = Truthy(repo, m, root, DATA_FUNCS, DATA_PARAMS)
             for g, p in t.seeds:
                 n_src += 1
                 rep.ob("E4-sources", g, f"{g.qual}({p})", True)
